@@ -500,8 +500,8 @@ pub mod events {
     use crate::refjson::obj;
 
     pub const SENDER_SERVER: &str = "sender.org";
-    pub const EVENT_ID_SERVER: &str = "eid.org";
-    pub const AUTH_SERVER: &str = "auth.org";
+    pub const EVENT_ID_SERVER: &str = "eid.org:8448";
+    pub const AUTH_SERVER: &str = "[2001:db8::1]:8448";
     pub const EXTRA_SERVER: &str = "extra.org";
 
     #[derive(Clone, Debug)]
@@ -512,7 +512,7 @@ pub mod events {
 
     fn base(ty: &str, state_key: Option<&str>, content: Value) -> Map<String, Value> {
         let mut m = obj(json!({
-            "event_id": "$e1:eid.org",
+            "event_id": format!("$e1:{EVENT_ID_SERVER}"),
             "type": ty,
             "room_id": "!room:sender.org",
             "sender": "@alice:sender.org",
@@ -576,7 +576,7 @@ pub mod events {
                 base(
                     "m.room.member",
                     Some("@alice:sender.org"),
-                    member("join", json!({"join_authorised_via_users_server": "@admin:auth.org"})),
+                    member("join", json!({"join_authorised_via_users_server": format!("@admin:{AUTH_SERVER}")})),
                 ),
             ),
             f(
